@@ -706,7 +706,7 @@ Lemma SInv_cleanup iso conn rl s : SInv s -> SInv (st_of (sc_cleanup iso conn rl
 Proof.
   intro SI. unfold sc_cleanup.
   apply bind_SInv; [destruct iso; [exact SI|apply SInv_sc_remove_nodes_from; exact SI]|].
-  intros s1 I1. apply bind_SInv; [destruct conn; [apply SInv_lcc; exact I1|exact I1]|].
+  intros s1 I1. apply bind_SInv; [destruct (conn && negb (match h_node s1 with [] => true | _ => false end)); [apply SInv_lcc; exact I1|exact I1]|].
   intros s2 I2. destruct rl; [apply SInv_relabel|exact I2].
 Qed.
 
